@@ -27,6 +27,33 @@
 #include <utility>
 #include <vector>
 
+#if defined(HGRAPH_VERIF)
+// Verification hook (guard: HGRAPH_VERIF compile definition, off in every normal build). A model-checking harness that owns the
+// thread schedule defines hgraph_verif_point(); the real-time executor's stop flag then yields to it around every access, so
+// that preemptions at this lock-free flag are explored like preemptions at mutex operations. Without a definition the weak
+// symbol is null and the wrapper is a plain atomic.
+extern "C" void hgraph_verif_point(const char *what) noexcept __attribute__((weak));
+namespace hgraph::detail
+{
+    struct VerifAtomicBool
+    {
+        std::atomic_bool value;
+        VerifAtomicBool(bool initial = false) noexcept : value(initial) {}
+        bool load(std::memory_order order) const noexcept
+        {
+            const bool result = value.load(order);
+            if (hgraph_verif_point != nullptr) { hgraph_verif_point("stop-flag-loaded"); }
+            return result;
+        }
+        void store(bool desired, std::memory_order order) noexcept
+        {
+            value.store(desired, order);
+            if (hgraph_verif_point != nullptr) { hgraph_verif_point("stop-flag-stored"); }
+        }
+    };
+}  // namespace hgraph::detail
+#endif
+
 namespace hgraph
 {
     namespace detail
@@ -154,7 +181,11 @@ namespace hgraph
 
             mutable std::mutex           mutex{};
             std::condition_variable      condition{};
+#if defined(HGRAPH_VERIF)
+            detail::VerifAtomicBool      stop_requested{false};
+#else
             std::atomic_bool             stop_requested{false};
+#endif
             bool                         push_update_pending{false};
             GraphExecutorPhaseRunner     phase_runner{};
             bool                         run_logging_enabled{false};
